@@ -265,6 +265,16 @@ def _run_delivery(payload):
     if "rdflib_graph" in kw and isinstance(kw["rdflib_graph"], list):
         kw["rdflib_graph"] = M.to_rdflib(M.from_json_graph(kw["rdflib_graph"]))
     res = {"id": payload["id"], "status": "ok", "exc": "", "frame": "", "phase": ""}
+    pre = payload.get("prelude")
+    if pre:
+        # the same path, read twice by this process with another content in between (a regenerated dump): an earlier extraction,
+        # whose result is not judged, then the file is rewritten and the judged extraction runs
+        with open(pre["path"], "w", encoding="utf8") as fh:
+            fh.write(pre["first"])
+        runner.call_guarded(lambda: Shaper(**kw).shex_graph(string_output=True), timeout=30)
+        with open(pre["path"], "w", encoding="utf8") as fh:
+            fh.write(pre["second"])
+        rec = runner.install_recorder()
     st, sh, exc, frame = runner.call_guarded(lambda: Shaper(**kw), timeout=20)
     if st != "ok":
         res.update(status=st, exc=exc, frame=frame, phase="ctor")
@@ -301,10 +311,11 @@ def check_c08(out, tier):
     try:
         big_traces = big_document_traces(sc, rnd, tier)
         payloads, meta = [], {}
+        prevT, prev_bn = None, False
         for i in range(26 * k):
             bn = rnd.random() < .35
             if rnd.random() < .3:
-                T = gen.schema_graph(rnd, bnodes=bn)
+                T = gen.schema_graph(rnd, bnodes=bn, typed_classes=not bn)
             else:
                 # (a class that is itself an instance + blank-node subjects + inverse paths prints blank-node labels inside
                 #  value sets - known finding KF.C09.bnodevalueset - and rdflib spells those labels differently)
@@ -313,6 +324,16 @@ def check_c08(out, tier):
             cfg["report"] = "mixed"
             base = gen.case("c08g%d" % i, T, **cfg)
             payloads.append({"id": base["id"] + ".ref", "case": base, "kwargs": None})
+            if prevT is not None and rnd.random() < .5:
+                # a path that held another graph when this process read it a moment ago
+                fmt = rnd.choice(["nt", "tsv_spo", "turtle_iter"] + ([] if bn or prev_bn else ["turtle", "n3", "json-ld"] + (["xml"] if xml_expressible(T) and xml_expressible(prevT) else [])))
+                d = {"fmt": fmt, "carrier": "rewritten file", "parts": 1, "comp": None}
+                path = sc.path(FORMAT_EXT[fmt])
+                pid = "%s.rw" % base["id"]
+                payloads.append({"id": pid, "case": base, "kwargs": {"input_format": fmt, "graph_file_input": path},
+                                 "prelude": {"path": path, "first": serialize(prevT, fmt, rnd), "second": serialize(T, fmt, rnd)}})
+                meta[pid] = (base, d)
+            prevT, prev_bn = T, bn
             for j, d in enumerate(deliveries(rnd, bn)):
                 if d["fmt"] == "xml" and not xml_expressible(T):
                     out.skip("RDF/XML cannot write a predicate whose local part is not an XML name (format limit, not a channel of this graph)")
